@@ -9,6 +9,8 @@ Decided structural clauses:
  D4 error estimates are never negative (sign domain over the returned expressions)
  D5 the three global error estimates agree: None without reference, absolute for a zero reference, else relative to the
     same reference attribute
+ D6 the reported point count is the size of the integrand's evaluation dictionary, and that dictionary is reset whenever an
+    operation is (re-)initialised for a run
 Not decided: benefits non-negative, point counts monotone, reported count == distinct evaluations (runtime facts)."""
 import ast
 
@@ -214,6 +216,9 @@ def run(prog, ctx):
                   % (src(bad[0][1].ast.value) if bad else "?", bad[0][0] if bad else "none returned"))
     ctx.floor("C13.D4", n4, 10, "error-estimate functions")
 
+    # ------------------------------------------------------------------ D6
+    check_point_count(prog, ctx)
+
     # ------------------------------------------------------------------ D5
     sigs = {}
     for fi in gee:
@@ -242,6 +247,35 @@ def run(prog, ctx):
     ctx.check(none_ok and bool(rel) and bool(absol) and zero_guard, "C13.D5", "%s::reference-structure" % ref, prog.func(ref).loc(),
               "None without a reference, absolute deviation for a zero reference, else deviation divided by the reference",
               "the global error estimate no longer has the structure None / absolute (zero reference) / (reference - result) / reference")
+
+
+def check_point_count(prog, ctx):
+    gd = prog.func("GridOperation.Integration.get_distinct_points")
+    ini = prog.func("GridOperation.Integration.initialize")
+    ctx.touch(gd, ini)
+    tg = Terms(gd.node)
+    ok = any(tg.term(r.ast.value) == ("call", ("a", ("a", ("n", "self"), "f"), "get_f_dict_size"), (), ()) for r in R.return_paths(gd)[0])
+    ctx.check(ok, "C13.D6", R.key_of(gd, "count-is-dictionary-size"), gd.loc(),
+              "the distinct point count is the size of the integrand's evaluation dictionary",
+              "Integration.get_distinct_points no longer returns self.f.get_f_dict_size()")
+    ci = cfg_of(ini)
+    resets = [R.cfg_node(ini, x) for x in R.calls_in(ini.node, method="reset_dictionary") if R.attr_chain(x.func.value) == ["self", "f"]]
+    ok = bool(resets) and any(ci.post_dominates(n, ci.entry) for n in resets)
+    ctx.check(ok, "C13.D6", R.key_of(ini, "count-reset-at-initialisation"), ini.loc(),
+              "initialising the operation empties the evaluation dictionary (the counter starts at 0 for every run)",
+              "Integration.initialize does not reset the integrand's evaluation dictionary on every path: evaluations of an earlier run on the "
+              "same function object are counted again, the reported point count exceeds the evaluations of this run")
+    tc = prog.func("StandardCombi.StandardCombi.get_total_num_points")
+    ctx.touch(tc)
+    tt = Terms(tc.node, max_depth=0)
+    okt = False
+    for r in R.return_paths(tc)[0]:
+        guards = [g for (g, gn) in R.dominating_guards(tc, r, tt) if gn.kind == "test"]
+        if guards == [("n", "distinct_function_evals")] and tt.term(r.ast.value) == ("call", ("a", ("a", ("n", "self"), "operation"), "get_distinct_points"), (("a", ("n", "self"), "scheme"),), ()):
+            okt = True
+    ctx.check(okt, "C13.D6", R.key_of(tc, "driver-count-from-operation"), tc.loc(),
+              "get_total_num_points(distinct_function_evals=True) asks the operation for its distinct points",
+              "get_total_num_points no longer returns operation.get_distinct_points(scheme) for distinct_function_evals=True")
 
 
 def _abstract_result(t):
